@@ -434,6 +434,8 @@ def check_processes(case, ctx):
 
 
 SPEC = S.dataset_spec(max_vars=2, max_extra=1, modes=("raw", "raw", "decoded", "file", "dask"), geom_kwargs={"max_n": 3, "max_j": 2, "max_i": 2})
+MESH_SPEC = S.dataset_spec(convs=["ugrid"], max_vars=2, max_extra=2, modes=("raw", "raw", "decoded"),
+                           geom_kwargs={"max_j": 2, "max_i": 2})
 BARE_SPEC = S.dataset_spec(with_vars=False, modes=("raw",), geom_kwargs={"max_n": 3, "max_j": 2, "max_i": 2, "holes": False})
 
 
@@ -446,6 +448,7 @@ def process_cases(draw):
 SUBS = [
     Sub("edits", lambda tier: SPEC, check_spec, quick=120, thorough=600),
     Sub("edits_bare", lambda tier: BARE_SPEC, check_spec, quick=60, thorough=300),
+    Sub("edits_meshes", lambda tier: MESH_SPEC, check_spec, quick=80, thorough=400),
     Sub("attribute_identity", lambda tier: SPEC, check_attribute_identity, quick=30, thorough=200),
     Sub("fresh_interpreters", lambda tier: process_cases(), check_processes, quick=2, thorough=8,
         shrink=False),
